@@ -204,7 +204,11 @@ class Lexer:
 
     def t_RPAR(self, token):
         r'\)'
-        token.lexer.pop_state()
+        try:
+            token.lexer.pop_state()
+        except IndexError:
+            self.errors.append(
+                ('Unmatched closing parenthesis.', token.lexer.lineno))
         return token
 
     def t_ANY_BOOLEAN(self, token):
